@@ -178,3 +178,10 @@ def run_case(case, drv):
         res.nontrivial = len(ws) >= 1
         res.features.append("exhaustive:False")
     return res
+
+
+EXHAUSTIVE_SCOPE = FU.EXHAUSTIVE_FORMS_SCOPE
+
+
+def gen_exhaustive():
+    yield from FU.gen_exhaustive_forms(("seq",))
